@@ -302,7 +302,7 @@ fn strip_v(b: &[u8]) -> Vec<u8> {
 }
 
 /// One commit round in the scripted world with all bindings checked.
-fn bound_round(w: &mut World, by: usize, spec: &CommitSpec, psk_values: &[(u8, Vec<u8>)], ctx: &mut Ctx) -> bool {
+fn bound_round(w: &mut World, by: usize, spec: &CommitSpec, psk_values: &[(u8, Vec<u8>)], res: &mut std::collections::BTreeMap<u64, Vec<u8>>, ctx: &mut Ctx) -> bool {
     let s = Suite(w.cfg.suite);
     let prev_keys = w.g(by).verif_epoch_keys();
     let prev_ctx = w.g(by).context().mls_encode_to_vec().unwrap();
@@ -362,7 +362,28 @@ fn bound_round(w: &mut World, by: usize, spec: &CommitSpec, psk_values: &[(u8, V
             continue;
         };
         if !sh.psk_ids.is_empty() {
-            let list: Vec<(Vec<u8>, Vec<u8>)> = sh.psk_ids.iter().map(|id| (id.clone(), psk_values.first().map(|v| v.1.clone()).unwrap_or_default())).collect();
+            // value per id, in the order of the Welcome's GroupSecrets.psks (= the order of the
+            // PSK proposals in the commit, RFC 9420 8.4): external -> the stored value;
+            // resumption -> the resumption secret the reference derived for that epoch
+            let list: Vec<(Vec<u8>, Vec<u8>)> = sh
+                .psk_ids
+                .iter()
+                .map(|id| {
+                    let val = if id.first() == Some(&2) {
+                        let mut rd = crate::reference::tls::Rd::new(&id[2..]);
+                        let _ = rd.vbytes();
+                        let e = rd.u64().unwrap_or(u64::MAX);
+                        ctx.goal("resumption-psk-in-bound-commit");
+                        res.get(&e).cloned().unwrap_or_default()
+                    } else {
+                        psk_values.first().map(|v| v.1.clone()).unwrap_or_default()
+                    };
+                    (id.clone(), val)
+                })
+                .collect();
+            if list.len() >= 2 && list.iter().any(|(i, _)| i.first() == Some(&1)) && list.iter().any(|(i, _)| i.first() == Some(&2)) {
+                ctx.goal("mixed-psk-list-in-bound-commit");
+            }
             psk_secret = ks::psk_secret(s, &list);
         }
         let r = ks::epoch_from_joiner(s, &sh.joiner_secret, &psk_secret, &new_ctx);
@@ -408,15 +429,18 @@ fn bound_round(w: &mut World, by: usize, spec: &CommitSpec, psk_values: &[(u8, V
             compare_epoch(w, m, r, "scripted world", ctx);
         }
     }
+    // the resumption secret of this epoch is an INPUT of later PSK commits (where a reference
+    // epoch exists it has just been compared with it)
+    res.insert(w.g(by).current_epoch(), w.g(by).verif_epoch_keys().resumption_secret);
     ctx.report.transitions += 1;
     true
 }
 
 fn part_b(suite: u16, which: Which, enc: bool, ctx: &mut Ctx) {
     let cfg = WorldCfg { suite, providers: vec![which], encrypt_handshake: enc, ..Default::default() };
-    let mut w = World::new(cfg, 5);
+    let mut w = World::new(cfg, 7);
     let psk_val = b"psk-zero-value".to_vec();
-    for p in 0..5 {
+    for p in 0..7 {
         w.set_psk(p, 0, psk_val.clone());
     }
     let script: Vec<(usize, CommitSpec)> = vec![
@@ -425,8 +449,14 @@ fn part_b(suite: u16, which: Which, enc: bool, ctx: &mut Ctx) {
         (2, CommitSpec { props: vec![Prop::Add(3)], ..Default::default() }),
         (0, CommitSpec { props: vec![Prop::ExternalPsk(0), Prop::Add(4)], ..Default::default() }),
         (3, CommitSpec { props: vec![Prop::Remove(1)], ..Default::default() }),
-        (2, CommitSpec { props: vec![Prop::Add(1)], ..Default::default() }),
+        // mixed PSK lists in both orders (the resumption PSK names the epoch two commits back);
+        // the Add makes the list visible through a Welcome
+        // (the added party cannot join for real -- it never held the resumption PSK -- but the
+        // shadow joiner opens its Welcome; it stays a phantom leaf)
+        (2, CommitSpec { props: vec![Prop::ResumptionPsk(4), Prop::ExternalPsk(0), Prop::Add(5)], ..Default::default() }),
+        (3, CommitSpec { props: vec![Prop::ExternalPsk(0), Prop::ResumptionPsk(5), Prop::Add(6)], ..Default::default() }),
     ];
+    let mut res: std::collections::BTreeMap<u64, Vec<u8>> = Default::default();
     let r = w.run(|w| {
         if w.create(0).is_err() {
             return;
@@ -437,13 +467,13 @@ fn part_b(suite: u16, which: Which, enc: bool, ctx: &mut Ctx) {
             }
             if let Some(Prop::Remove(x)) = spec.props.first() {
                 let x = *x;
-                if !bound_round(w, *by, spec, &[(0, psk_val.clone())], ctx) {
+                if !bound_round(w, *by, spec, &[(0, psk_val.clone())], &mut res, ctx) {
                     break;
                 }
                 w.retire(x, true);
                 continue;
             }
-            if !bound_round(w, *by, spec, &[(0, psk_val.clone())], ctx) {
+            if !bound_round(w, *by, spec, &[(0, psk_val.clone())], &mut res, ctx) {
                 break;
             }
         }
@@ -462,13 +492,13 @@ fn part_b(suite: u16, which: Which, enc: bool, ctx: &mut Ctx) {
 pub fn meta(_tier: &str) -> Meta {
     Meta {
         level: "model_checking",
-        rule: "Part A: for every suite of every shipped provider the pure derivation entry points are compared with the independent RFC implementation on the grid {init secret x commit secret (zero, ones, pattern, Nh-1, Nh+5 bytes)} x {4 group contexts incl. epoch 2^64-1, long group id, extensions} x {psk secret}; secret tree sizes {1..16,32,1024} x leaves x both ratchets x generations {0,1,2,255,256,1024}; exporter lengths {1,Nh,Nh+1,255*Nh}; PSK lists of 0..3 entries over 5 id kinds in every order; ExpandWithLabel lengths. Part B: scripted worlds (suites 1,2,3 / providers / public+encrypted handshake): for every commit the harness opens the Welcome as a shadow joiner and derives the epoch with the reference; every secret every real member holds, exporter, epoch authenticator, next message key, confirmation tag, both transcript hashes and the membership tag (from wire bytes) and the init-secret chain must agree. states = grid cells / member-epochs compared".into(),
+        rule: "Part A: for every suite of every shipped provider the pure derivation entry points are compared with the independent RFC implementation on the grid {init secret x commit secret (zero, ones, pattern, Nh-1, Nh+5 bytes)} x {4 group contexts incl. epoch 2^64-1, long group id, extensions} x {psk secret}; secret tree sizes {1..16,32,1024} x leaves x both ratchets x generations {0,1,2,255,256,1024}; exporter lengths {1,Nh,Nh+1,255*Nh}; PSK lists of 0..3 entries over 5 id kinds in every order; ExpandWithLabel lengths. Part B: scripted worlds (suites 1,2,3 / providers / public+encrypted handshake): for every commit the harness opens the Welcome as a shadow joiner and derives the epoch with the reference; every secret every real member holds, exporter, epoch authenticator, next message key, confirmation tag, both transcript hashes and the membership tag (from wire bytes) and the init-secret chain must agree; the script includes commits whose PSK lists mix a resumption and an external PSK in both orders (the PSK secret must chain them in the order of the proposals, RFC 9420 8.4). states = grid cells / member-epochs compared".into(),
         assumptions: vec![
             "reference: reference::keysched (HKDF/HMAC written out on sha2+hmac), independent of mls-rs".into(),
             "the encryption secret is compared through the message keys derived from it".into(),
         ],
         bounds: bounds_json(&[("suites", json!("rustcrypto 1-3, openssl 1-7, awslc 1,2,3,5,7"))]),
-        required_goals: vec!["welcome-opened-with-reference-keys", "init-secret-chain-bound", "transcript-and-tags-bound"],
+        required_goals: vec!["welcome-opened-with-reference-keys", "init-secret-chain-bound", "transcript-and-tags-bound", "mixed-psk-list-in-bound-commit"],
         min_outcomes: 4,
         workers: 15,
     }
